@@ -1,4 +1,4 @@
-CONSTANTS MaxN = 7  MaxN1 = 2  MaxLimit = 10  MaxOverlap = 7  Build = TRUE
+CONSTANTS MaxN = 6  MaxN1 = 2  MaxLimit = 10  MaxOverlap = 7  Build = TRUE
 INIT Init
 NEXT Next
 INVARIANTS DoneIsOk UnsatNeverDone RefIsOk Covered SizeBound
